@@ -252,6 +252,57 @@ End SparseDecisionOfTheCode.
 
 From LCM Require Import Proofs.C14_Refine.
 
+Theorem sparse_decision_generic :
+  forall (m : model) (p : params) (t : nat) (last : bool) (vnext : list nat -> val) (rs rc dst dch cst cch : list (string * grid)),
+  Permutation (rc ++ dch ++ cch) (choices m) -> NoDup (map fst (choices m)) ->
+  NoDup (map fst (rs ++ rc ++ dst ++ cst ++ dch ++ cch) ++ [period_name]) ->
+  forall (uf : list Q -> val * bool), (forall vals, defined (fst (uf vals))) ->
+  forall (nrows : nat) (colsA colsC : list (list Q)),
+  length colsA = length ((rs ++ rc) ++ dst) -> length colsC = length cst ->
+  Forall (fun c : list Q => length c = nrows) (colsA ++ colsC) -> (colsA ++ colsC)%list <> [] ->
+  (* at every (row, choice) point the function returns the specification's feasibility and objective of the bound environment *)
+  (forall row dc cc, row < nrows -> in_bounds (sizes dch) dc -> in_bounds (sizes cch) cc ->
+     let e := env_of_vals6 t rs rc dst dch cst cch (agent_vals dch cch colsA colsC row dc cc) in
+     snd (uf (agent_vals dch cch colsA colsC row dc cc)) = feasible m p e /\
+     (feasible m p e = true -> veq (fst (uf (agent_vals dch cch colsA colsC row dc cc))) (objective m p last vnext e))) ->
+  forall (ids : list nat) (num : nat), length ids = nrows ->
+  (* one agent: its rows are its kept restricted-choice combinations *)
+  forall (a : nat) (vRs vDst vCst : list Q) (keep : list nat -> bool) (ci_of : nat -> list nat),
+  a < num -> length vRs = length rs -> length vDst = length dst -> length vCst = length cst ->
+  (forall row, In row (rows_of_segment ids a) ->
+     in_bounds (sizes rc) (ci_of row) /\ row_is rc colsA colsC vRs vDst vCst row (ci_of row)) ->
+  (forall ci, in_bounds (sizes rc) ci -> keep ci = true -> exists row, In row (rows_of_segment ids a) /\ ci_of row = ci) ->
+  (forall ci dc cidx, in_bounds (sizes rc) ci -> in_bounds (sizes dch) dc -> in_bounds (sizes cch) cidx -> keep ci = false ->
+     feasible m p (sigma_agent rs dst cst vRs vDst vCst ++ (env_of_idx rc ci ++ env_of_idx dch dc ++ env_of_idx cch cidx) ++ [(period_name, Qofnat t)])%list = false) ->
+  rows_of_segment ids a <> [] ->
+  let sigma := sigma_agent rs dst cst vRs vDst vCst in
+  let V := value_agent rs rc dst dch cst cch uf colsA colsC ids num a in
+  veq V (value_at m p t last vnext sigma) /\
+  (V <> VNegInf ->
+   let row := row_agent rs rc dst dch cst cch uf colsA colsC ids num a in
+   let ci := ci_of row in
+   let red := red_g ((rs ++ rc) ++ dst) dch cst cch uf colsA colsC row in
+   let cidx := unravel (sizes cch) (cont_argmax_g ((rs ++ rc) ++ dst) dch cst cch uf colsA colsC row) in
+   In row (rows_of_segment ids a) /\ in_bounds (sizes rc) ci /\ in_bounds (sizes dch) red /\ in_bounds (sizes cch) cidx /\
+   feasible m p (sigma ++ (env_of_idx rc ci ++ env_of_idx dch red ++ env_of_idx cch cidx) ++ [(period_name, Qofnat t)])%list = true /\
+   veq (objective m p last vnext (sigma ++ (env_of_idx rc ci ++ env_of_idx dch red ++ env_of_idx cch cidx) ++ [(period_name, Qofnat t)])%list) V).
+Proof.
+  intros m p t last vnext rs rc dst dch cst cch Hperm Hnd Hnames uf Hdef nrows colsA colsC HlA HlC Hformat Hne Hpt6
+         ids num Hids a vRs vDst vCst keep ci_of Ha H1 H2 H3 Hrows Hstored Hdropped Hnonempty sigma V.
+  assert (Hpoint : forall row dc cc, row < nrows -> in_bounds (sizes dch) dc -> in_bounds (sizes cch) cc ->
+    snd (uf (agent_vals dch cch colsA colsC row dc cc)) = feasible m p (agent_env t ((rs ++ rc) ++ dst) dch cst cch colsA colsC row dc cc) /\
+    (feasible m p (agent_env t ((rs ++ rc) ++ dst) dch cst cch colsA colsC row dc cc) = true ->
+     veq (fst (uf (agent_vals dch cch colsA colsC row dc cc))) (objective m p last vnext (agent_env t ((rs ++ rc) ++ dst) dch cst cch colsA colsC row dc cc)))).
+  { intros row dc cc Hr Hdc Hcc. destruct (Hpt6 row dc cc Hr Hdc Hcc) as [Ef Ev]. cbv zeta in Ef, Ev.
+    pose proof (env6_of_row t rs rc dst dch cst cch Hnames colsA colsC HlA HlC row dc cc Hdc Hcc) as EQ.
+    rewrite <- (feasible_env m p _ _ EQ), <- (objective_env m p _ _ EQ last vnext). split; assumption. }
+  split.
+  - exact (agent_value_is_the_specifications m p t last vnext rs rc dst dch cst cch Hperm Hnd Hnames uf Hdef nrows colsA colsC HlA HlC Hformat Hne Hpoint
+             ids num Hids a vRs vDst vCst keep ci_of Ha H1 H2 H3 Hrows Hstored Hdropped).
+  - exact (agent_choice_is_a_maximiser m p t last vnext rs rc dst dch cst cch Hnames uf Hdef nrows colsA colsC HlA HlC Hformat Hne Hpoint
+             ids num Hids a vRs vDst vCst ci_of Ha H1 H2 H3 Hrows Hnonempty).
+Qed.
+
 Theorem sparse_decision_of_the_code_is_optimal :
   forall (m : model) (p : params) (t : nat) (F : list nat -> Q) (rs rc dst dch cst cch : list (string * grid))
          (isr : string -> bool) (remaining : list (list nat)),
@@ -288,21 +339,49 @@ Theorem sparse_decision_of_the_code_is_optimal :
    feasible m p (sigma ++ (env_of_idx rc ci ++ env_of_idx dch red ++ env_of_idx cch cidx) ++ [(period_name, Qofnat t)])%list = true /\
    veq (objective m p false vnext (sigma ++ (env_of_idx rc ci ++ env_of_idx dch red ++ env_of_idx cch cidx) ++ [(period_name, Qofnat t)])%list) V).
 Proof.
-  intros m p t F rs rc dst dch cst cch isr remaining Hperm Hnd Hnames Hnds Hvalid nrows colsA colsC HlA HlC Hformat Hne uf Heval
-         ids num Hids a vRs vDst vCst keep ci_of Ha H1 H2 H3 Hrows Hstored Hdropped Hnonempty vnext sigma V.
-  assert (Hdef : forall vals, defined (fst (uf vals))) by (intros vals; unfold uf, uf_code_sparse; cbv zeta; cbn [fst]; discriminate).
-  assert (Hpoint : forall row dc cc, row < nrows -> in_bounds (sizes dch) dc -> in_bounds (sizes cch) cc ->
-    snd (uf (agent_vals dch cch colsA colsC row dc cc)) = feasible m p (agent_env t ((rs ++ rc) ++ dst) dch cst cch colsA colsC row dc cc) /\
-    (feasible m p (agent_env t ((rs ++ rc) ++ dst) dch cst cch colsA colsC row dc cc) = true ->
-     veq (fst (uf (agent_vals dch cch colsA colsC row dc cc))) (objective m p false vnext (agent_env t ((rs ++ rc) ++ dst) dch cst cch colsA colsC row dc cc)))).
-  { intros row dc cc Hr Hdc Hcc. unfold uf, uf_code_sparse. cbv zeta. cbn [fst snd].
+  intros m p t F rs rc dst dch cst cch isr remaining Hperm Hnd Hnames Hnds Hvalid nrows colsA colsC HlA HlC Hformat Hne uf Heval.
+  apply (sparse_decision_generic m p t false (fun idx => VFin (F idx)) rs rc dst dch cst cch Hperm Hnd Hnames uf); try assumption.
+  - intros vals. unfold uf, uf_code_sparse. cbv zeta. cbn [fst]. discriminate.
+  - intros row dc cc Hr Hdc Hcc. cbv zeta. unfold uf, uf_code_sparse. cbv zeta. cbn [fst snd].
     destruct (uf_code_sparse_at m p t F isr remaining Hnds Hvalid _ (Heval row dc cc Hr Hdc Hcc)) as [Ef Ev]. cbv zeta in Ef, Ev.
-    pose proof (env6_of_row t rs rc dst dch cst cch Hnames colsA colsC HlA HlC row dc cc Hdc Hcc) as EQ.
-    rewrite <- (feasible_env m p _ _ EQ), <- (objective_env m p _ _ EQ false vnext).
-    split; [exact Ef|]. intros _. exact Ev. }
-  split.
-  - exact (agent_value_is_the_specifications m p t false vnext rs rc dst dch cst cch Hperm Hnd Hnames uf Hdef nrows colsA colsC HlA HlC Hformat Hne Hpoint
-             ids num Hids a vRs vDst vCst keep ci_of Ha H1 H2 H3 Hrows Hstored Hdropped).
-  - exact (agent_choice_is_a_maximiser m p t false vnext rs rc dst dch cst cch Hnames uf Hdef nrows colsA colsC HlA HlC Hformat Hne Hpoint
-             ids num Hids a vRs vDst vCst ci_of Ha H1 H2 H3 Hrows Hnonempty).
+    split; [exact Ef|]. intros _. exact Ev.
+Qed.
+
+(* the last period *)
+Theorem sparse_last_decision_of_the_code_is_optimal :
+  forall (m : model) (p : params) (t : nat) (vnext : list nat -> val) (rs rc dst dch cst cch : list (string * grid)),
+  Permutation (rc ++ dch ++ cch) (choices m) -> NoDup (map fst (choices m)) ->
+  NoDup (map fst (rs ++ rc ++ dst ++ cst ++ dch ++ cch) ++ [period_name]) ->
+  forall (nrows : nat) (colsA colsC : list (list Q)),
+  length colsA = length ((rs ++ rc) ++ dst) -> length colsC = length cst ->
+  Forall (fun c : list Q => length c = nrows) (colsA ++ colsC) -> (colsA ++ colsC)%list <> [] ->
+  let uf := uf_code_sparse_last m p t rs rc dst dch cst cch in
+  (forall row dc cc, row < nrows -> in_bounds (sizes dch) dc -> in_bounds (sizes cch) cc ->
+     exists u, eval_fun (depth m) m p (env_of_vals6 t rs rc dst dch cst cch (agent_vals dch cch colsA colsC row dc cc)) "utility" = Some u) ->
+  forall (ids : list nat) (num : nat), length ids = nrows ->
+  forall (a : nat) (vRs vDst vCst : list Q) (keep : list nat -> bool) (ci_of : nat -> list nat),
+  a < num -> length vRs = length rs -> length vDst = length dst -> length vCst = length cst ->
+  (forall row, In row (rows_of_segment ids a) ->
+     in_bounds (sizes rc) (ci_of row) /\ row_is rc colsA colsC vRs vDst vCst row (ci_of row)) ->
+  (forall ci, in_bounds (sizes rc) ci -> keep ci = true -> exists row, In row (rows_of_segment ids a) /\ ci_of row = ci) ->
+  (forall ci dc cidx, in_bounds (sizes rc) ci -> in_bounds (sizes dch) dc -> in_bounds (sizes cch) cidx -> keep ci = false ->
+     feasible m p (sigma_agent rs dst cst vRs vDst vCst ++ (env_of_idx rc ci ++ env_of_idx dch dc ++ env_of_idx cch cidx) ++ [(period_name, Qofnat t)])%list = false) ->
+  rows_of_segment ids a <> [] ->
+  let sigma := sigma_agent rs dst cst vRs vDst vCst in
+  let V := value_agent rs rc dst dch cst cch uf colsA colsC ids num a in
+  veq V (value_at m p t true vnext sigma) /\
+  (V <> VNegInf ->
+   let row := row_agent rs rc dst dch cst cch uf colsA colsC ids num a in
+   let ci := ci_of row in
+   let red := red_g ((rs ++ rc) ++ dst) dch cst cch uf colsA colsC row in
+   let cidx := unravel (sizes cch) (cont_argmax_g ((rs ++ rc) ++ dst) dch cst cch uf colsA colsC row) in
+   In row (rows_of_segment ids a) /\ in_bounds (sizes rc) ci /\ in_bounds (sizes dch) red /\ in_bounds (sizes cch) cidx /\
+   feasible m p (sigma ++ (env_of_idx rc ci ++ env_of_idx dch red ++ env_of_idx cch cidx) ++ [(period_name, Qofnat t)])%list = true /\
+   veq (objective m p true vnext (sigma ++ (env_of_idx rc ci ++ env_of_idx dch red ++ env_of_idx cch cidx) ++ [(period_name, Qofnat t)])%list) V).
+Proof.
+  intros m p t vnext rs rc dst dch cst cch Hperm Hnd Hnames nrows colsA colsC HlA HlC Hformat Hne uf Heval.
+  apply (sparse_decision_generic m p t true vnext rs rc dst dch cst cch Hperm Hnd Hnames uf); try assumption.
+  - intros vals. unfold uf, uf_code_sparse_last. cbv zeta. cbn [fst]. discriminate.
+  - intros row dc cc Hr Hdc Hcc. cbv zeta. unfold uf, uf_code_sparse_last, Gen.ModelFunctions.u_and_f_last. cbv zeta. cbn [fst snd].
+    split; [reflexivity|]. intros _. destruct (Heval row dc cc Hr Hdc Hcc) as (u & Hu). unfold objective, u_of. rewrite Hu. reflexivity.
 Qed.
